@@ -106,7 +106,7 @@ Definition gviewb (cx : ctx) (s : socket) (t : tuple) (stt : tcp_state) (una nxt
            (M : option Z) : bool :=
   ctl_sockb cx s t && tcp_state_eqb (s_state s) stt && (s_local_seq_no s =? una) && (s_remote_last_seq s =? nxt) &&
   (tcp_window_start s =? ws) && (match s_ack_delay_timer s with ADIdle => true | _ => false end) &&
-  (rb_len (s_rx_buffer s) =? 0) && (s_remote_last_win s =? tcp_scaled_window s) &&
+  (rb_len (s_rx_buffer s) =? 0) && (match tcp_window_to_update s with Ok false => true | _ => false end) &&
   timer_eqb (s_timer s) tm && opt_eqb (s_remote_last_ack s) (Some la) && opt_eqb (rt_max_seq_sent (s_rtte s)) M.
 
 Lemma gviewb_sound cx s t stt una nxt ws tm la M :
@@ -120,6 +120,7 @@ Proof.
   - apply ctl_sockb_sound. exact H.
   - apply tcp_state_eqb_eq. assumption.
   - destruct (s_ack_delay_timer s); try discriminate. reflexivity.
+  - destruct (tcp_window_to_update s) as [[|]|?|]; try discriminate. reflexivity.
 Qed.
 
 Definition mlimb (M : option Z) (U : Z) : bool :=
